@@ -12,7 +12,7 @@ CHECK = dict(
           'RefIndex(daemon chain); thorough tier: half of the evaluations enumerate every position of one '
           'generated reorg in turn. non-trivial = a crash fired inside a backup and the final audit '
           'completed'),
-    assumptions=['SimDB/SimFS stand in for LevelDB and the file system (batches atomic, completed '
+    assumptions=['a simulated plyvel module (under the real LevelDB class of electrumx.server.storage) and SimFS stand in for the LevelDB engine and the file system (batches atomic, completed '
                  'operations durable: process death, not power loss)',
                  'the model bitcoind serves only valid chains; fork depth within the property\'s '
                  'quantifier (reorg limit counted from the highest height the daemon reported; chain '
